@@ -280,7 +280,7 @@ def run(ctx):
     helpers.correct_increments_schema(ctx, py, "C09")
     helpers.interpolate_pva(ctx, py, "C09")
     helpers.numpy_contracts_standin(ctx, py, "C09")
-    _standin(ctx, py)
+    ctx.guard(_standin, ctx, py)
 
 
 def _replay(py, name, cex, mode):
